@@ -122,7 +122,7 @@ package etype
 //@ func (crypto/etype.EType).EncryptMessage(e, key, message, usage) (iv, ct, err)
 //@   pure
 //@   trusted_frame interface frame; implementations delegate to the family functions
-//@   ensures err == nil ==> len(lastRandom) == et_confounder(tagof(e)) && bytes(ct) == msg_enc(tagof(e), bytes(key), usage, lastRandom, bytes(message), len(message))
+//@   ensures err == nil ==> len(lastRandom) == et_confounder(tagof(e)) && bytes(ct) == msg_enc(tagof(e), old(bytes(key)), usage, lastRandom, old(bytes(message)), len(message))
 //@ func (crypto/etype.EType).StringToKey(e, secret, salt, s2kparams) (k, err)
 //@   pure
 //@   requires tagof(e) == typeid("crypto.Des3CbcSha1Kd") ==> len(secret) + len(salt) > 0
